@@ -7,7 +7,10 @@ RULE = ("references of 3-40 atoms (random trees, cyclic graphs, chains, stars, r
         "the reference, s in (0,2] with 1 and 0.5 over-represented; geometry streams: generic (molecule-like walk), "
         "partial (one anchor exactly collinear with its frame neighbours), near (near-collinear, margin 1e-9..1e-3), "
         "collinear_decimal; dyadic stream (exact binary64 distances): grid (equidistant anchors -> tie rule), collinear "
-        "along an axis / a diagonal / an integer direction.  The map is applied to the construction-time reference. "
+        "along an axis / a diagonal / an integer direction.  Each case is a call SEQUENCE on one map object: the construction "
+        "Molecule object itself, fresh copies at the construction-time positions, moved copies in between, in-place "
+        "excursions of the construction object and back; the law is checked on every call made in the reference "
+        "configuration and every call is a correspondence case. "
         "A case is non-trivial when distinct (every case has >= 1 anchor and >= 1 target atom).")
 
 
@@ -42,8 +45,54 @@ def law_failures(spec, res):
     return bad
 
 
-def oracle_spec(spec):
-    return law_failures(spec, E.run_impl(spec, spec["ref"]))
+def moved_conf(rs, spec):
+    """another configuration of the same molecule: rotated, translated and slightly deformed copy"""
+    ref = np.array(spec["ref"], dtype=float)
+    c = ref.mean(axis=0)
+    out = (ref - c) @ E.random_rotation(rs).T + c + rs.uniform(-2, 2, size=3) + rs.normal(size=ref.shape) * 0.02 * rs.randint(2)
+    return out
+
+
+def sequence_failures(spec, steps):
+    """One map object, the calls of `steps`; the law must hold on EVERY call whose argument is in the
+    construction-time reference configuration (whatever object carries it and whatever happened before)."""
+    res = E.run_sequence(spec, steps)
+    if "err" in res:
+        return law_failures(spec, res)
+    ref = np.array(spec["ref"], dtype=float)
+    bad = []
+    for i, c in enumerate(res["calls"]):
+        if c["pos"].shape == ref.shape and np.array_equal(c["pos"], ref):
+            b = law_failures(spec, E.call_view(res, i))
+            bad += ["call %d of the sequence (%s, reference configuration): %s" % (i, c["how"], x) for x in b]
+    if not np.array_equal(res["tgt_after"], np.array(spec["tgt"], dtype=float)):
+        bad.append("the target molecule passed to the constructor was modified by the calls")
+    return bad[:6]
+
+
+def default_steps(spec):
+    return [{"how": "copy", "pos": spec["ref"]}]
+
+
+C01_PATTERNS = [["object"], ["copy0"], ["object", "copy", "object"], ["copy", "object", "copy0"],
+                ["object", "inplace", "restore"], ["copy", "copy0", "inplace", "restore", "object"]]
+
+
+def gen_steps(rs, spec, pattern=None):
+    """"copy0": a fresh copy at the construction-time positions"""
+    if pattern is None:
+        pattern = C01_PATTERNS[rs.randint(len(C01_PATTERNS))]
+    steps = []
+    for how in pattern:
+        if how == "copy0":
+            steps.append({"how": "copy", "pos": spec["ref"]})
+        else:
+            steps += E.make_steps(rs, spec, moved_conf, [how])
+    return steps
+
+
+def oracle_spec(spec, steps=None):
+    return sequence_failures(spec, steps if steps is not None else default_steps(spec))
 
 
 def _chain3(points, tgt, s, geom):
@@ -68,54 +117,84 @@ CORPUS = [
 ]
 
 
+# witness of the seeded change C01-2 (frames not recomputed when the argument is the construction object): branched
+# 5-atom reference, 6-atom target; emap(ref), emap(moved copy), emap(ref) again, in-place excursion and back
+_W_REF = [[1.00, 2.00, 3.00], [1.12, 2.05, 3.02], [1.18, 2.17, 2.95], [1.21, 1.97, 3.11], [1.33, 2.01, 3.16]]
+_W_TGT = [[1.05, 2.03, 2.96], [1.15, 2.10, 3.05], [1.20, 2.00, 3.07], [1.27, 1.93, 3.15], [1.30, 2.06, 3.20],
+          [1.09, 2.11, 3.09]]
+_W_MOVED = (np.dot(np.array(_W_REF) - np.array(_W_REF[0]), E.rot([0.3, -1.0, 0.5], 0.8).T) + np.array(_W_REF[0])
+            + np.array([0.7, -0.4, 1.1])).tolist()
+_W_STEPS = [{"how": "object"}, {"how": "copy", "pos": _W_MOVED}, {"how": "object"}, {"how": "inplace", "pos": _W_MOVED},
+            {"how": "inplace", "pos": _W_REF}, {"how": "copy", "pos": _W_REF}]
+SEQ_CORPUS = [({"n_ref": 5, "graph": "tree", "geom": "generic", "bonds": [[0, 1], [1, 2], [1, 3], [3, 4]], "ref": _W_REF,
+                "tgt": _W_TGT, "s": sc}, _W_STEPS) for sc in (1.0, 0.5, 1.7)]
+
+
+def _corpus_items(ctx):
+    items = [(spec, default_steps(spec)) for spec in CORPUS + E.shipped_specs(ctx.n(40, 10 ** 6))]
+    items += list(SEQ_CORPUS)
+    # the D1 witnesses through the construction object as well
+    items += [(spec, [{"how": "object"}, {"how": "copy", "pos": (np.array(spec["ref"]) + 0.5).tolist()}, {"how": "object"}])
+              for spec in CORPUS]
+    return items
+
+
 def corpus(ctx):
     S = ctx.cov["S"]
     S["corpus"] = 0
-    for spec in CORPUS + E.shipped_specs(ctx.n(40, 10 ** 6)):
-        bad = oracle_spec(spec)
+    for spec, steps in _corpus_items(ctx):
+        bad = oracle_spec(spec, steps)
         S["corpus"] += 1
         if bad:
-            ctx.violation("anchor-and-scale law: " + "; ".join(bad), {"kind": "c01", "spec": spec}, key="law")
+            ctx.violation("anchor-and-scale law: " + "; ".join(bad),
+                          {"kind": "c01", "spec": spec, "steps": E.steps_json(steps)}, key="law")
 
 
 def correspondence(ctx):
     rs = ctx.np_rng("K")
-    items = [(spec, spec["ref"], {"kind": "c01", "stream": "corpus"})
-             for spec in CORPUS + [sp for sp in E.shipped_specs(ctx.n(40, 10 ** 6)) if sp["n_ref"] >= 3]]
-    for i in range(ctx.n(330, 5000)):
+    items = [(spec, steps, {"kind": "c01", "stream": "corpus"}) for spec, steps in _corpus_items(ctx) if spec["n_ref"] >= 3]
+    for i in range(ctx.n(200, 3000)):
         spec = E.gen_spec(rs, E.GEOMS_GENERIC[i % len(E.GEOMS_GENERIC)])
-        items.append((spec, spec["ref"], {"kind": "c01", "stream": "generic"}))
-    for i in range(ctx.n(220, 3500)):
+        items.append((spec, gen_steps(rs, spec), {"kind": "c01", "stream": "generic"}))
+    for i in range(ctx.n(130, 2000)):
         spec = E.gen_spec(rs, E.GEOMS_DYADIC[i % len(E.GEOMS_DYADIC)])
-        items.append((spec, spec["ref"], {"kind": "c01", "stream": "dyadic"}))
+        items.append((spec, gen_steps(rs, spec), {"kind": "c01", "stream": "dyadic"}))
     # error branch: >= 3 atoms, nobody with two bonds (outside the property's domain; IndexError <-> Err EIndex)
     for _ in range(3):
         spec = E.gen_spec(rs, "generic", n=4)
         spec["bonds"] = [[0, 1], [2, 3]]
         spec["graph"] = "no_anchor"
-        items.append((spec, spec["ref"], {"kind": "c01", "stream": "no_anchor"}))
-    return E.run_K(ctx, items, lambda d: oracle_spec(d["spec"]))
+        items.append((spec, default_steps(spec), {"kind": "c01", "stream": "no_anchor"}))
+    return E.run_K(ctx, items, lambda d: oracle_spec(d["spec"], d["steps"]))
 
 
 def oracle(ctx, scale):
     rs = ctx.np_rng("S%d" % scale)
     S = ctx.cov["S"]
-    n = ctx.n(500, 8000) * scale
+    n = ctx.n(400, 6000) * scale
     geoms = ["generic", "generic", "partial", "collinear_decimal"] + E.GEOMS_DYADIC
     fails = 0
-    hist = {}
+    hist, pats = {}, {}
+    ncalls = 0
     for i in range(n):
         spec = E.gen_spec(rs, geoms[i % len(geoms)])
         if i % 7 == 0:
             spec["s"] = 1.0
-        bad = oracle_spec(spec)
+        steps = gen_steps(rs, spec)
+        ncalls += len(steps)
+        bad = oracle_spec(spec, steps)
         hist[spec["geom"]] = hist.get(spec["geom"], 0) + 1
-        ctx.count(("S", spec["bonds"], spec["ref"], spec["tgt"], spec["s"]))
+        pk = ",".join(st["how"] for st in steps)
+        pats[pk] = pats.get(pk, 0) + 1
+        ctx.count(("S", spec["bonds"], spec["ref"], spec["tgt"], spec["s"], pk))
         if bad:
             fails += 1
-            ctx.violation("anchor-and-scale law: " + "; ".join(bad), {"kind": "c01", "spec": spec}, key="law")
-    S["law_cases_x%d" % scale] = n
+            ctx.violation("anchor-and-scale law: " + "; ".join(bad),
+                          {"kind": "c01", "spec": spec, "steps": E.steps_json(steps)}, key="law")
+    S["law_sequences_x%d" % scale] = n
+    S["calls_x%d" % scale] = ncalls
     S["input_distribution"] = hist
+    S["sequence_patterns"] = pats
     S["failures"] = S.get("failures", 0) + fails
 
 
@@ -124,7 +203,7 @@ def replay(ctx, obj):
     if "spec" not in r:
         print("replay names a proof/correspondence, not an input:", r)
         return False
-    bad = oracle_spec(r["spec"])
+    bad = oracle_spec(r["spec"], r.get("steps"))
     print(bad)
     return not bad
 
